@@ -32,7 +32,8 @@ RULE = ("random objective/box/N=1..5/density/r; eps in {1e-4..1.5} (incl. eps >=
         "with 40% of the cases forced to itersLimit in {1,2,3} or eps in {1.0,1.5}; 15% with refineSolution=True (local-phase "
         "calls must not be counted); 25% with 1..60 iterations made through DoGlobalIteration calls before Solve (below, at and above "
         "the budget: Solve must end at the first moment the rule holds, at once if it already does), 20% with a second Solve after "
-        "itersLimit/eps of the shared parameters object were changed in place (it must continue to the new criterion). Distinct by parameter set; non-trivial if the run has >= 2 trials; the stats split the "
+        "itersLimit/eps of the shared parameters object were changed in place (it must continue to the new criterion); 3% objectives with "
+        "a huge penalty value (1e100 .. 1.8e308, inf) on a band: Solve must terminate. Distinct by parameter set; non-trivial if the run has >= 2 trials; the stats split the "
         "runs into accuracy stops, budget stops and both.")
 
 
@@ -45,7 +46,39 @@ def expected_T(deltas, t_start, lim, eps, t_max):
     return None
 
 
+def check_overflow_case(case):
+    """objectives with a HUGE penalty value on a band (1e155 .. 1.8e308, inf): differences of such values overflow, the
+    characteristic becomes NaN, and the search cannot go on.  Claimed here: Solve TERMINATES (returns within the watchdog time,
+    no runaway), never exceeds the budget, and reports exactly the evaluations it made.  (Repaired defect F11: it used to hang
+    forever inside the priority queue.)"""
+    vs, info = [], {"overflow_family": True}
+    run = oc.Run(case)
+    err, sol = None, None
+    try:
+        sol = run.solve()
+    except BaseException as e:                # noqa
+        err = repr(e)
+    if err or run.runaway or run.hang or sol is None:
+        vs.append(oc.violation(PROP, case, "terminates", {"raised": err, "runaway": run.runaway, "hang": run.hang,
+                                                          "calls": run.calls}))
+        return vs, info
+    T = len(run.glog())
+    info["trials"] = T
+    info["ended_by_exception"] = bool(run.printed_exception)
+    if not (1 <= T <= case["lim"]):
+        vs.append(oc.violation(PROP, case, "budget", {"global_calls": T, "itersLimit": case["lim"]}))
+    if sol.numberOfGlobalTrials != T:
+        vs.append(oc.violation(PROP, case, "evals-equal-reported", {"global_calls": T, "reported": sol.numberOfGlobalTrials}))
+    return vs, info
+
+
 def check_case(case):
+    if case["spec"]["kind"] == "band":
+        return check_overflow_case(case)
+    return _check_case(case)
+
+
+def _check_case(case):
     """optional keys: "pre" = sizes of DoGlobalIteration calls made before Solve (they ignore the stop rule, Solve must then
     end at the first moment the rule holds - possibly at once); "again" = {"lim": L2, "eps": E2}: after the first Solve the
     parameters object is changed in place and Solve is called a second time (it must continue to the new criterion)"""
@@ -123,6 +156,12 @@ def check_case(case):
 
 
 def gen(r):
+    if r.random() < 0.03:
+        n = r.choice([1, 1, 2, 3])
+        spec = {"kind": "band", "a": round(r.uniform(0.0, 0.9), 3), "w": r.choice([0.05, 0.2, 0.5, 1.0]),
+                "big": r.choice([1e155, 1e200, 1e300, 1.7976931348623157e308, float("inf"), -1e200, 1e100]),
+                "of": oc.objectives.gen_spec(r, n)}
+        return oc.gen_case(r, n=n, spec=spec, lim=r.choice([5, 17, 40, 150]))
     u = r.random()
     kw = {}
     if u < 0.2:
